@@ -174,6 +174,10 @@ type StallConfig struct {
 	Permille uint32 // share of the sites that are stall sites in this run (sites in `go func` bodies: x4)
 	HitPct   uint32 // share of the passes through a stall site that actually stall
 	MaxShift uint32 // durations are 1µs << (0..MaxShift)
+	// Only: if set, the single stall site of this run (a targeted run: every pass may stall, for
+	// 1µs << (MinShift..MaxShift)); Permille is ignored then
+	Only     string
+	MinShift uint32
 	Budget   int64  // at most this many stalls per run (keeps the simulated duration of a run bounded)
 	fired    int64  // approximate: incremented without synchronisation, on purpose
 }
@@ -216,6 +220,18 @@ func mix64(x uint64) uint64 {
 func Stall(site string) {
 	c := stallCfg.Load()
 	if c == nil || stallsHeld {
+		return
+	}
+	if c.Only != "" {
+		if site != c.Only || c.fired >= c.Budget {
+			return
+		}
+		h2 := mix64(c.Seed ^ uint64(time.Now().UnixNano()) ^ uint64(c.fired)<<40)
+		if uint32(h2%100) >= c.HitPct {
+			return
+		}
+		c.fired++
+		time.Sleep(time.Microsecond << (uint64(c.MinShift) + (h2>>8)%uint64(c.MaxShift-c.MinShift+1)))
 		return
 	}
 	h := c.Seed
